@@ -175,8 +175,22 @@ def str_values():
     return st.one_of(plain, plain, htmlv)
 
 
+BOOLEAN_ATTRS = ["checked", "disabled", "selected", "hidden", "readonly", "required", "open", "multiple", "async", "defer", "autofocus", "novalidate"]
+
+
 def pairs(max_size=3):
-    return st.lists(st.tuples(raw_names(), values()).map(list), max_size=max_size)
+    plain = st.lists(st.tuples(raw_names(), values()).map(list), max_size=max_size)
+    # several values for ONE name in one call, plain ones before the first HTML() one
+    triple = st.builds(
+        lambda fam, a, b, c, hv: [[fam[0], a], [fam[1 % len(fam)], b], [fam[-1], c], [fam[0], {"html": hv}]],
+        st.sampled_from([["x", "x_"], ["class", "class_"], ["data_a", "data-a"], ["title"]]),
+        gen.any_text(),
+        gen.any_text(),
+        st.one_of(gen.any_text(), st.sampled_from([None, True, 3])),
+        st.sampled_from(BENIGN_HTML),
+    )
+    boolish = st.builds(lambda n, up: [[n, n.upper() if up else n]], st.sampled_from(BOOLEAN_ATTRS), st.booleans())
+    return st.one_of(plain, plain, plain, triple, boolish)
 
 
 def steps():
